@@ -16,10 +16,12 @@ func advance(n int) {
 	vt.AlignHalf(time.Duration(n)*time.Second - 500*time.Millisecond)
 }
 
-// onGrid puts the virtual clock on the k s + 501 ms grid if it is not there.
+// onGrid puts the virtual clock exactly on the k s + 501 ms grid if it is not there (scheduler
+// runs drift by a nanosecond per step). Exactness matters for speed, not for verdicts: every app
+// ever built leaves a 300 ms clock goroutine behind, and apps built on the same grid instant wake
+// at the same virtual instants, i.e. with one jump of the fake clock instead of one each.
 func onGrid() {
-	// (scheduler runs add a few ns per step: anything in [501 ms, 502 ms) counts as on the grid)
-	if f := vt.Since() % time.Second; f < 501*time.Millisecond || f >= 502*time.Millisecond {
+	if vt.Since()%time.Second != 501*time.Millisecond {
 		vt.AlignHalf(0)
 	}
 }
@@ -57,7 +59,10 @@ func (g *rig) reportPanic(q *rq, class string, extra map[string]any) bool {
 	extra["panic"] = firstLine(q.Panic)
 	extra["stack"] = trimStack(q.Panic)
 	g.viol("panic|"+site+"|"+class, "the cache middleware panicked: "+firstLine(q.Panic), extra)
-	wait := 5 * time.Second
+	// a request that is not blocked completes without any virtual time passing (the middleware has
+	// no timers of its own on the request path), so a short virtual wait is exact; kept short
+	// because every virtual second costs a wake-up of the clock goroutine of every app built so far
+	wait := 50 * time.Millisecond
 	if g.realtime {
 		wait = 2 * time.Second
 	}
